@@ -310,6 +310,16 @@ func (c *C02Case) Run() string {
 			if msg := derivedProbe(t, m); msg != "" {
 				return desc + " was refused but left the source in another state: " + msg
 			}
+			// a lazy transposition that was pending on the source before the refused call can still be undone
+			if n := len(c.L.Steps); si == 0 && t == b.T && n > 0 && c.L.Steps[n-1].Op == "T" && c.L.Final == "" && prod(m.Shape) > 1 {
+				if pan := try(func() { t.UT() }); pan != "" {
+					return desc + " was refused; UT() of the source then panicked: " + pan
+				}
+				before := arr.Permute(invPerm(c.L.Steps[n-1].Perm))
+				if msg := compareAt(t, before, bitEqVal); msg != "" {
+					return desc + " was refused, but the transposition pending on the source can no longer be undone: " + msg
+				}
+			}
 			return "" // a refused step ends the program
 		}
 		rec.Class("valid-spec")
